@@ -16,6 +16,9 @@ use crate::{
 // interactive terminal reading mode.
 
 /// Interactive unbuffered terminal.
+#[cfg(lace_verif)]
+pub mod verif_term;
+
 #[derive(Debug)]
 pub struct Terminal {
     stderr: io::Stderr,
